@@ -833,6 +833,10 @@ class Aspire:
             config_dict["xp"] = resolve_xp(config_dict["xp"])
         config_dict["log_likelihood"] = log_likelihood
         config_dict["log_prior"] = log_prior
+        # The flow options were given as keyword arguments; pass them the same
+        # way instead of nesting them under a "flow_kwargs" keyword.
+        flow_kwargs = config_dict.pop("flow_kwargs", None) or {}
+        config_dict.update(flow_kwargs)
 
         aspire = Aspire(**config_dict)
 
